@@ -123,6 +123,13 @@ static std::string random_class_fen(const ClassTpl& c, bool strong_white, std::m
     return f;
 }
 
+// sparse random material for the search pools: kind cycles through the class templates; extra pawns now and then
+std::string random_material_fen(std::mt19937_64& rng, int kind)
+{
+    const int ncls = int(sizeof(CLASSES) / sizeof(CLASSES[0]));
+    return random_class_fen(CLASSES[(kind % 2) ? int(rng() % ncls) : (ncls - 1 - int(rng() % 8))], rng() % 2, rng);
+}
+
 static PositionScorer& long_lived()
 {
     static PositionScorer* s = new PositionScorer();
